@@ -738,7 +738,7 @@ fn sort_mode(input: Span) -> IResult<Span, SortMode> {
 
 fn sort(input: Span) -> IResult<Span, Operator> {
     tuple((
-        tag("sort").precedes(
+        word("sort").precedes(
             opt(tag("by")
                 .delimited_by(multispace1)
                 .precedes(sourced_expr_list))
@@ -935,10 +935,10 @@ fn escaped_ident(input: Span) -> IResult<Span, String> {
 fn atomic(input: Span) -> IResult<Span, Expr> {
     let num = digit1.map(|s: Span| data::Value::from_string(*s.fragment()));
     let bool_lit = alt((
-        tag("true").map(|_| data::Value::Bool(true)),
-        tag("false").map(|_| data::Value::Bool(false)),
+        word("true").map(|_| data::Value::Bool(true)),
+        word("false").map(|_| data::Value::Bool(false)),
     ));
-    let null = tag("null").map(|_| data::Value::None);
+    let null = word("null").map(|_| data::Value::None);
     let quoted_string_value = quoted_string.map(data::Value::Str);
     let duration_value = duration.map(data::Value::Duration);
     let value = alt((quoted_string_value, duration_value, num, bool_lit, null)).map(Expr::Value);
@@ -1454,6 +1454,16 @@ where
     }
 }
 
+/// A keyword: the tag, not followed by a character that would continue an identifier
+/// (`sum_total`, `sorted` and `true_x` are names, not `sum`, `sort` and `true`)
+fn word(name: &'static str) -> impl Clone + Fn(Span) -> IResult<Span, Span> {
+    move |input: Span| {
+        tag(name)
+            .terminated(peek(not(satisfy(is_ident))))
+            .parse(input)
+    }
+}
+
 fn oper_0_args(name: &'static str) -> impl Clone + Fn(Span) -> IResult<Span, Span> {
     move |input: Span| {
         tag(name)
@@ -1507,7 +1517,7 @@ fn parse_operators(input: Span) -> IResult<Span, Vec<Operator>> {
             .map(|input_column| InlineOperator::Logfmt { input_column }),
     );
     let split = with_pos(
-        tag("split")
+        word("split")
             .precedes(tuple((
                 opt(single_arg("the string to split")),
                 opt(tag("on")
@@ -1526,7 +1536,7 @@ fn parse_operators(input: Span) -> IResult<Span, Vec<Operator>> {
     );
     let timeslice = with_pos(
         tuple((
-            tag("timeslice").precedes(req_single_arg("the date-time value for the log message")),
+            word("timeslice").precedes(req_single_arg("the date-time value for the log message")),
             opt(duration.preceded_by(multispace1)),
             opt(tag("as").delimited_by(multispace1).precedes(ident)),
         ))
@@ -1542,7 +1552,7 @@ fn parse_operators(input: Span) -> IResult<Span, Vec<Operator>> {
         ),
     );
     let total = with_pos(
-        tag("total")
+        word("total")
             .precedes(req_single_arg("the value to sum"))
             .and(
                 opt(tag("as").delimited_by(multispace1).precedes(req_ident))
@@ -1557,7 +1567,7 @@ fn parse_operators(input: Span) -> IResult<Span, Vec<Operator>> {
             }),
     );
     let wher = with_pos(
-        tag("where")
+        word("where")
             .precedes(opt(delimited(multispace1, with_pos(expr), multispace0)))
             .terminated(expect_pipe(
                 "unrecognized option, only the condition can be specified",
@@ -1566,33 +1576,33 @@ fn parse_operators(input: Span) -> IResult<Span, Vec<Operator>> {
     );
 
     let count = with_pos(
-        tag("count")
+        word("count")
             .precedes(opt(single_arg("the value to count")))
             .map(|condition| AggregateFunction::Count { condition }),
     );
     let count_distinct = with_pos(
-        tag("count_distinct")
+        word("count_distinct")
             .precedes(opt(with_pos(arg_list)))
             .map(|column| AggregateFunction::CountDistinct { column }),
     );
     let min = with_pos(
-        tag("min")
+        word("min")
             .precedes(req_single_arg("the numeric value to find the minimum of"))
             .map(|column| AggregateFunction::Min { column }),
     );
     let max = with_pos(
-        tag("max")
+        word("max")
             .precedes(req_single_arg("the numeric value to find the maximum of"))
             .map(|column| AggregateFunction::Max { column }),
     );
     let sum = with_pos(
-        tag("sum")
+        word("sum")
             .precedes(req_single_arg("the numeric value to find the sum of"))
             .map(|column| AggregateFunction::Sum { column }),
     );
     let avg = with_pos(
-        tag("avg")
-            .or(tag("average"))
+        word("avg")
+            .or(word("average"))
             .precedes(req_single_arg("the numeric value to find the average of"))
             .map(|column| AggregateFunction::Average { column }),
     );
